@@ -392,5 +392,9 @@ func (e *Exec) store(c *Cell, v Value) {
 	if c.ro {
 		e.abort("store into a read-only reinterpretation snapshot")
 	}
+	if e.ifc != nil {
+		e.ifcStore(c, v)
+		return
+	}
 	c.v = v
 }
